@@ -16,32 +16,37 @@ Definition settles (ob : bool) (q : Z) (o : output) : bool :=
 (* well-formedness of outgoing_requests: an entry whose observation is running belongs to an observe request; request
    labels and (token, remote) keys are unique; tokens were issued by this manager's counter *)
 Definition okey (o : oreq) : Z * Z := (o_tok o, o_remote o).
+Definition rlabel (x : Z * Z * mtype * bool) : Z := fst (fst (fst x)).
 Record TI (s : tmst) : Prop := {
   ti_fo : forall o, In o (olist s) -> o_first o = true -> o_observe o = true;
   ti_q : NoDup (map o_q (olist s));
   ti_key : NoDup (map okey (olist s));
   ti_tok : forall o, In o (olist s) -> o_tok o <= token s;
-  ti_pos : 0 <= token s }.
+  ti_pos : 0 <= token s;
+  (* requests still looking for their remote: distinct labels, not in the table yet *)
+  ti_r : NoDup (map rlabel (resolving s));
+  ti_d : forall q, In q (map o_q (olist s)) -> ~ In q (map rlabel (resolving s)) }.
 Definition kept (b : tmst) (out : list output) (e : oreq) : Prop :=
   (exists e', In e' (olist b) /\ o_q e' = o_q e /\ o_observe e' = o_observe e) \/
   (exists o, In o out /\ settles (o_observe e) (o_q e) o = true).
 Definition keeps (a b : tmst) (out : list output) : Prop :=
-  TI a -> TI b /\ token b = token a /\ incl (map o_q (olist b)) (map o_q (olist a)) /\ forall e, In e (olist a) -> kept b out e.
+  TI a -> TI b /\ token b = token a /\ resolving b = resolving a /\ incl (map o_q (olist b)) (map o_q (olist a)) /\
+  forall e, In e (olist a) -> kept b out e.
 
-Lemma keeps_same a b out : olist b = olist a -> token b = token a -> keeps a b out.
+Lemma keeps_same a b out : olist b = olist a -> token b = token a -> resolving b = resolving a -> keeps a b out.
 Proof.
-  intros E T [F Q K Tk P]. split; [constructor; rewrite ?E, ?T; assumption|]. split; [exact T|]. split; [rewrite E; apply incl_refl|].
+  intros E T R [F Q K Tk P Rn Rd]. split; [constructor; rewrite ?E, ?T, ?R; assumption|]. split; [exact T|]. split; [exact R|]. split; [rewrite E; apply incl_refl|].
   intros e I. left. exists e. rewrite E. auto.
 Qed.
 Lemma keeps_refl a out : keeps a a out. Proof. apply keeps_same; reflexivity. Qed.
 Lemma kept_weaken b o o' e : kept b o e -> incl o o' -> kept b o' e.
 Proof. intros [K|(x & I & S)] Inc; [left; exact K|right; exists x; split; [apply Inc; exact I|exact S]]. Qed.
 Lemma keeps_weaken a b o o' : keeps a b o -> incl o o' -> keeps a b o'.
-Proof. intros K Inc F. destruct (K F) as (Fb & T & L & Kb). split; [exact Fb|split; [exact T|split; [exact L|]]]. intros e I. eapply kept_weaken; [apply Kb; exact I|exact Inc]. Qed.
+Proof. intros K Inc F. destruct (K F) as (Fb & T & R & L & Kb). split; [exact Fb|split; [exact T|split; [exact R|split; [exact L|]]]]. intros e I. eapply kept_weaken; [apply Kb; exact I|exact Inc]. Qed.
 Lemma keeps_trans a b c o1 o2 : keeps a b o1 -> keeps b c o2 -> keeps a c (o1 ++ o2).
 Proof.
-  intros K1 K2 F. destruct (K1 F) as (Fb & T1 & L1 & Kb). destruct (K2 Fb) as (Fc & T2 & L2 & Kc).
-  split; [exact Fc|]. split; [congruence|]. split; [eapply incl_tran; eassumption|].
+  intros K1 K2 F. destruct (K1 F) as (Fb & T1 & R1 & L1 & Kb). destruct (K2 Fb) as (Fc & T2 & R2 & L2 & Kc).
+  split; [exact Fc|]. split; [congruence|]. split; [congruence|]. split; [eapply incl_tran; eassumption|].
   intros e I. destruct (Kb e I) as [(e' & I' & Q & O)|(x & Ix & S)].
   - destruct (Kc e' I') as [(e'' & I'' & Q' & O')|(x & Ix & S)].
     + left. exists e''. split; [exact I''|split; congruence].
@@ -52,20 +57,21 @@ Qed.
 (* the two shapes of an update of the table *)
 Lemma incl_map_filter {A B} (f : A -> B) p (l : list A) : incl (map f (filter p l)) (map f l).
 Proof. intros x I. apply in_map_iff in I. destruct I as (y & E & I). apply filter_In in I. apply in_map_iff. exists y. tauto. Qed.
-Lemma TI_filter a b p : TI a -> olist b = filter p (olist a) -> token b = token a ->
+Lemma TI_filter a b p : TI a -> olist b = filter p (olist a) -> token b = token a -> resolving b = resolving a ->
   TI b /\ incl (map o_q (olist b)) (map o_q (olist a)).
 Proof.
-  intros [F Q K Tk P] E T. split; [|rewrite E; apply incl_map_filter].
-  constructor; rewrite ?E, ?T; auto using NoDup_map_filter.
+  intros [F Q K Tk P Rn Rd] E T R. split; [|rewrite E; apply incl_map_filter].
+  constructor; rewrite ?E, ?T, ?R; auto using NoDup_map_filter.
   - intros o I. apply filter_In in I. apply F. tauto.
   - intros o I. apply filter_In in I. apply Tk. tauto.
+  - intros q I. apply Rd. apply (incl_map_filter o_q p (olist a)). exact I.
 Qed.
 Lemma TI_update a b tok r o o' : TI a -> In o (olist a) -> oreq_is tok r o = true ->
-  olist b = map (fun x => if oreq_is tok r x then o' else x) (olist a) -> token b = token a ->
+  olist b = map (fun x => if oreq_is tok r x then o' else x) (olist a) -> token b = token a -> resolving b = resolving a ->
   o_q o' = o_q o -> o_tok o' = o_tok o -> o_remote o' = o_remote o -> (o_first o' = true -> o_observe o' = true) ->
   TI b /\ incl (map o_q (olist b)) (map o_q (olist a)).
 Proof.
-  intros [F Q K Tk P] Io Ko E T Eq Et Er Fo'.
+  intros [F Q K Tk P Rn Rd] Io Ko E T R Eq Et Er Fo'.
   assert (Same : forall x, In x (olist a) -> oreq_is tok r x = true -> x = o).
   { intros x Ix Kx. apply (NoDup_map_inj_in okey (olist a)); auto. unfold oreq_is in *. apply andb_true_iff in Kx, Ko.
     rewrite !Z.eqb_eq in *. unfold okey. destruct Kx, Ko. congruence. }
@@ -74,7 +80,7 @@ Proof.
   assert (Mk : map okey (olist b) = map okey (olist a)).
   { rewrite E, map_map. apply map_ext_in. intros x Ix. destruct (oreq_is tok r x) eqn:Kx; [|reflexivity]. rewrite (Same x Ix Kx). unfold okey. congruence. }
   split; [|rewrite Mq; apply incl_refl].
-  constructor; rewrite ?Mq, ?Mk, ?T; auto.
+  constructor; rewrite ?Mq, ?Mk, ?T, ?R; auto.
   - intros x Ix. rewrite E in Ix. apply in_map_iff in Ix. destruct Ix as (y & Ey & Iy). destruct (oreq_is tok r y); subst x; [exact Fo'|apply F; exact Iy].
   - intros x Ix. rewrite E in Ix. apply in_map_iff in Ix. destruct Ix as (y & Ey & Iy). destruct (oreq_is tok r y); subst x; [rewrite Et; apply Tk; exact Io|apply Tk; exact Iy].
 Qed.
@@ -123,7 +129,7 @@ Proof.
   pose proof (olist_some s os E) as OL. apply find_some in F. destruct F as [Io Qo]. apply Z.eqb_eq in Qo.
   set (b := tm_set_outgoing s (Some (filter (fun o => negb (o_q o =? q)) os))).
   assert (OLb : olist b = filter (fun o => negb (o_q o =? q)) (olist s)) by (rewrite OL; reflexivity).
-  destruct (TI_filter s b _ Ta OLb eq_refl) as [Tb Lb]. split; [exact Tb|split; [reflexivity|split; [exact Lb|]]].
+  destruct (TI_filter s b _ Ta OLb eq_refl eq_refl) as [Tb Lb]. split; [exact Tb|split; [reflexivity|split; [reflexivity|split; [exact Lb|]]]].
   intros x Ix. rewrite OL in Ix. destruct (o_q x =? q) eqn:Q.
   - right. apply Z.eqb_eq in Q. assert (x = o).
     { apply (NoDup_map_inj_in o_q (olist s)); [exact (ti_q _ Ta)|rewrite OL; exact Ix|rewrite OL; exact Io|congruence]. }
@@ -154,7 +160,7 @@ Proof.
   intro Ta. pose proof (olist_some s os E) as OL.
   match goal with |- TI ?b0 /\ _ => set (b := b0) end.
   assert (OLb : olist b = filter (fun o => negb (o_remote o =? r)) (olist s)) by (rewrite OL; reflexivity).
-  destruct (TI_filter s b _ Ta OLb eq_refl) as [Tb Lb]. split; [exact Tb|split; [reflexivity|split; [exact Lb|]]].
+  destruct (TI_filter s b _ Ta OLb eq_refl eq_refl) as [Tb Lb]. split; [exact Tb|split; [reflexivity|split; [reflexivity|split; [exact Lb|]]]].
   intros x Ix. rewrite OL in Ix. destruct (o_remote x =? r) eqn:Q.
   - right. apply Z.eqb_eq in Q. assert (Fx : o_first x = true -> o_observe x = true) by (apply (ti_fo _ Ta); rewrite OL; exact Ix).
     destruct (S2 x Ix Q Fx) as (y & Iy & Sy). exists y. split; [apply in_or_app; left; exact Iy|exact Sy].
@@ -180,14 +186,14 @@ Proof.
     match goal with |- TI ?b0 /\ _ => set (b := b0) end.
     assert (OLb : olist b = map (fun x => if oreq_is (m_token m) (m_remote m) x then o' else x) (olist s)) by (rewrite OL; reflexivity).
     assert (Ios : In o (olist s)) by (rewrite OL; exact Io).
-    destruct (TI_update s b _ _ o o' Ta Ios Ko OLb eq_refl Eq Et Er Fo') as [Tb Lb].
-    split; [exact Tb|split; [reflexivity|split; [exact Lb|]]].
+    destruct (TI_update s b _ _ o o' Ta Ios Ko OLb eq_refl eq_refl Eq Et Er Fo') as [Tb Lb].
+    split; [exact Tb|split; [reflexivity|split; [reflexivity|split; [exact Lb|]]]].
     intros x Ix. rewrite OL in Ix. left. destruct (oreq_is (m_token m) (m_remote m) x) eqn:Kx.
     + rewrite (Same x Ix Kx). exists o'. split; [|auto]. rewrite OLb, OL. apply in_map_iff. exists o. rewrite Ko. auto.
     + exists x. split; [|auto]. rewrite OLb, OL. apply in_map_iff. exists x. rewrite Kx. auto.
   - match goal with |- TI ?b0 /\ _ => set (b := b0) end.
     assert (OLb : olist b = filter (fun x => negb (oreq_is (m_token m) (m_remote m) x)) (olist s)) by (rewrite OL; reflexivity).
-    destruct (TI_filter s b _ Ta OLb eq_refl) as [Tb Lb]. split; [exact Tb|split; [reflexivity|split; [exact Lb|]]].
+    destruct (TI_filter s b _ Ta OLb eq_refl eq_refl) as [Tb Lb]. split; [exact Tb|split; [reflexivity|split; [reflexivity|split; [exact Lb|]]]].
     intros x Ix. rewrite OL in Ix. destruct (oreq_is (m_token m) (m_remote m) x) eqn:Kx.
     + right. rewrite (Same x Ix Kx). exact Sp.
     + left. exists x. split; [|auto]. rewrite OLb, OL. apply filter_In. split; [exact Ix|rewrite Kx; reflexivity].
@@ -200,7 +206,7 @@ Proof.
   destruct (o_first o); [apply keeps_refl|]. cbn [fst snd]. intro Ta. pose proof (olist_some s os E) as OL.
   match goal with |- TI ?b0 /\ _ => set (b := b0) end.
   assert (OLb : olist b = filter (fun o => negb (o_q o =? q)) (olist s)) by (rewrite OL; reflexivity).
-  destruct (TI_filter s b _ Ta OLb eq_refl) as [Tb Lb]. split; [exact Tb|split; [reflexivity|split; [exact Lb|]]].
+  destruct (TI_filter s b _ Ta OLb eq_refl eq_refl) as [Tb Lb]. split; [exact Tb|split; [reflexivity|split; [reflexivity|split; [exact Lb|]]]].
   intros x Ix. rewrite OL in Ix. destruct (o_q x =? q) eqn:Q.
   - right. exists (OCancelled q). split; [left; reflexivity|]. cbn. exact Q.
   - left. exists x. split; [|auto]. rewrite OLb, OL. apply filter_In. split; [exact Ix|rewrite Q; reflexivity].
@@ -209,8 +215,8 @@ Qed.
 Lemma tm_shutdown_outgoing_keeps t s : keeps s (fst (tm_shutdown_outgoing t s)) (snd (tm_shutdown_outgoing t s)).
 Proof.
   unfold tm_shutdown_outgoing. destruct (outgoing s) as [os|] eqn:E; [|apply keeps_refl]. cbn [fst snd].
-  intro Ta. pose proof (olist_some s os E) as OL. destruct Ta as [F Q K Tk P].
-  split; [constructor; cbn; try constructor; try assumption; intros o []|]. split; [reflexivity|]. split; [intros x []|].
+  intro Ta. pose proof (olist_some s os E) as OL. destruct Ta as [F Q K Tk P Rn Rd].
+  split; [constructor; cbn; try constructor; try assumption; try (intros o []); intros q []|]. split; [reflexivity|]. split; [reflexivity|]. split; [intros x []|].
   intros x Ix. right. rewrite OL in Ix. assert (Fx : o_first x = true -> o_observe x = true) by (apply F; rewrite OL; exact Ix).
   destruct (request_run_exc t x LibraryShutdown Fx) as (y & Iy & Sy). exists y. split; [|exact Sy].
   apply in_flat_map. exists x. auto.
@@ -242,7 +248,7 @@ Proof.
   eapply keeps_weaken; [exact K|apply incl_appl; apply incl_refl].
 Qed.
 
-Lemma handler_respond_keeps s h code last obs : keeps (tm s) (tm (fst (handler_respond s h code last obs))) (snd (handler_respond s h code last obs)).
+Lemma handler_respond_keeps s h code last obs lg : keeps (tm s) (tm (fst (handler_respond s h code last obs lg))) (snd (handler_respond s h code last obs lg)).
 Proof.
   unfold handler_respond. destruct (incoming (tm s)) as [l|]; [|apply keeps_refl].
   destruct (find (fun i => i_h i =? h) l) as [i|]; [|apply keeps_refl].
@@ -321,8 +327,9 @@ Proof.
   eapply keeps_weaken; [eapply keeps_trans; [exact K1|exact K2]|]. cbn [app]. apply incl_app_mid.
 Qed.
 
-Definition is_request_event (e : event) : bool := match e with ClientRequest _ _ _ _ => true | _ => false end.
-Lemma step_keeps s e : is_request_event e = false -> keeps (tm s) (tm (fst (step s e))) (snd (step s e)).
+Definition is_plain (e : event) : bool :=
+  match e with ClientRequest _ _ _ _ | ClientRequestSlow _ _ _ _ | Resolved _ => false | _ => true end.
+Lemma step_keeps s e : is_plain e = true -> keeps (tm s) (tm (fst (step s e))) (snd (step s e)).
 Proof.
   intro NR. destruct e; try discriminate NR; cbn [step].
   - apply dispatch_message_keeps.
@@ -336,14 +343,16 @@ Proof.
 Qed.
 
 (* ---------------------------------------------------------------- submitting a request *)
-Lemma tm_request_link s q r mt ob : TI (tm s) -> ~ In q (map o_q (olist (tm s))) -> token (tm s) + 1 < 2 ^ 64 ->
+Lemma tm_request_link s q r mt ob : TI (tm s) -> ~ In q (map o_q (olist (tm s))) -> ~ In q (map rlabel (resolving (tm s))) ->
+  token (tm s) + 1 < 2 ^ 64 ->
   let s' := fst (tm_request s q r mt ob) in let out := snd (tm_request s q r mt ob) in
-  TI (tm s') /\ token (tm s') <= token (tm s) + 1 /\ incl (map o_q (olist (tm s'))) (q :: map o_q (olist (tm s))) /\
+  TI (tm s') /\ token (tm s') <= token (tm s) + 1 /\ resolving (tm s') = resolving (tm s) /\
+  incl (map o_q (olist (tm s'))) (q :: map o_q (olist (tm s))) /\
   (forall e, In e (olist (tm s)) -> kept (tm s') out e) /\
   ((exists e', In e' (olist (tm s')) /\ o_q e' = q /\ o_observe e' = ob) \/ (exists o, In o out /\ settles ob q o = true)).
 Proof.
-  intros Ta Fresh Bound. cbv zeta. unfold tm_request. destruct (outgoing (tm s)) as [os|] eqn:E.
-  - pose proof (olist_some _ _ E) as OL. destruct Ta as [F Q K Tk P].
+  intros Ta Fresh FreshR Bound. cbv zeta. unfold tm_request. destruct (outgoing (tm s)) as [os|] eqn:E.
+  - pose proof (olist_some _ _ E) as OL. destruct Ta as [F Q K Tk P Rn Rd].
     unfold next_token. cbn [fst snd].
     assert (Tok : (token (tm s) + 1) mod 2 ^ 64 = token (tm s) + 1) by (apply Z.mod_small; lia).
     destruct (send_message _ _ _ _ _ _ _ _) as [mm1 out]. cbn [fst snd tm].
@@ -351,84 +360,157 @@ Proof.
     set (b := tm_set_outgoing (tm_set_token (tm s) ((token (tm s) + 1) mod 2 ^ 64)) (Some (os ++ [fr]))).
     assert (OLb : olist b = olist (tm s) ++ [fr]) by (rewrite OL; reflexivity).
     assert (Tb : token b = token (tm s) + 1) by (cbn; exact Tok).
-    split; [|split; [lia|split; [|split]]].
-    + constructor; rewrite ?OLb, ?Tb.
+    assert (Rb : resolving b = resolving (tm s)) by reflexivity.
+    split; [|split; [lia|split; [exact Rb|split; [|split]]]].
+    + constructor; rewrite ?OLb, ?Tb, ?Rb.
       * intros o I. apply in_app_or in I. destruct I as [I|[<-|[]]]; [apply F; exact I|cbn; discriminate].
       * rewrite map_app. cbn. apply NoDup_app_intro_one; assumption.
       * rewrite map_app. cbn. apply NoDup_app_intro_one; [exact K|]. intro I. apply in_map_iff in I. destruct I as (x & Hx & Ix).
         unfold okey, fr in Hx. cbn in Hx. inversion Hx. pose proof (Tk x Ix). lia.
       * intros o I. apply in_app_or in I. destruct I as [I|[<-|[]]]; [pose proof (Tk o I); lia|cbn; lia].
       * lia.
+      * exact Rn.
+      * intros q0 I. rewrite map_app in I. apply in_app_or in I. destruct I as [I|[<-|[]]]; [apply Rd; exact I|exact FreshR].
     + rewrite OLb, map_app. cbn. intros x I. apply in_app_or in I. destruct I as [I|[<-|[]]]; [right; exact I|left; reflexivity].
     + intros e I. left. exists e. split; [rewrite OLb; apply in_or_app; left; exact I|auto].
     + left. exists fr. split; [rewrite OLb; apply in_or_app; right; left; reflexivity|auto].
-  - cbn [fst snd]. split; [exact Ta|split; [lia|split; [apply incl_tl; apply incl_refl|split]]].
+  - cbn [fst snd]. split; [exact Ta|split; [lia|split; [reflexivity|split; [apply incl_tl; apply incl_refl|split]]]].
     + intros e I. left. exists e. auto.
     + right. exists (OFail q LibraryShutdown). split; [left; reflexivity|cbn; apply Z.eqb_refl].
 Qed.
 
 (* ---------------------------------------------------------------- whole histories *)
 Definition reqs_of (es : list event) : list (Z * bool) :=
-  flat_map (fun e => match e with ClientRequest q _ _ ob => [(q, ob)] | _ => [] end) es.
+  flat_map (fun e => match e with ClientRequest q _ _ ob | ClientRequestSlow q _ _ ob => [(q, ob)] | _ => [] end) es.
+(* a submitted request is in the table, or settled, or still looking for its remote *)
 Definition tracked (L : list (Z * bool)) (b : tmst) (outs : list output) : Prop :=
   forall q ob, In (q, ob) L ->
-    (exists e, In e (olist b) /\ o_q e = q /\ o_observe e = ob) \/ (exists o, In o outs /\ settles ob q o = true).
+    (exists e, In e (olist b) /\ o_q e = q /\ o_observe e = ob) \/ (exists o, In o outs /\ settles ob q o = true) \/
+    (exists x, In x (resolving b) /\ rlabel x = q /\ snd x = ob).
+Definition labels (s : tmst) : list Z := map o_q (olist s) ++ map rlabel (resolving s).
 
-Lemma tracked_step L a b outs0 out : tracked L a outs0 -> (forall e, In e (olist a) -> kept b out e) -> tracked L b (outs0 ++ out).
+Lemma tracked_step L a b outs0 out : tracked L a outs0 -> (forall e, In e (olist a) -> kept b out e) -> resolving b = resolving a ->
+  tracked L b (outs0 ++ out).
 Proof.
-  intros T K q ob I. destruct (T q ob I) as [(e & Ie & Eq & Eo)|(o & Io & S)].
+  intros T K R q ob I. destruct (T q ob I) as [(e & Ie & Eq & Eo)|[(o & Io & S)|X]].
   - destruct (K e Ie) as [(e' & Ie' & Eq' & Eo')|(o & Io & S)].
     + left. exists e'. split; [exact Ie'|split; congruence].
-    + right. exists o. split; [apply in_or_app; right; exact Io|]. rewrite <- Eq, <- Eo. exact S.
-  - right. exists o. split; [apply in_or_app; left; exact Io|exact S].
+    + right. left. exists o. split; [apply in_or_app; right; exact Io|]. rewrite <- Eq, <- Eo. exact S.
+  - right. left. exists o. split; [apply in_or_app; left; exact Io|exact S].
+  - right. right. rewrite R. exact X.
 Qed.
 
+Definition draws (e : event) : Z := match e with ClientRequest _ _ _ _ | Resolved _ => 1 | _ => 0 end.
+
+Lemma step_link s e L outs0 : TI (tm s) -> token (tm s) + 1 < 2 ^ 64 -> incl (labels (tm s)) (map fst L) ->
+  NoDup (map fst (L ++ reqs_of [e])) -> tracked L (tm s) outs0 ->
+  TI (tm (fst (step s e))) /\ token (tm (fst (step s e))) <= token (tm s) + 1 /\
+  incl (labels (tm (fst (step s e)))) (map fst (L ++ reqs_of [e])) /\
+  tracked (L ++ reqs_of [e]) (tm (fst (step s e))) (outs0 ++ snd (step s e)).
+Proof.
+  intros Ta Bound Lab ND Tr. destruct (is_plain e) eqn:PL.
+  - assert (RQ : reqs_of [e] = []) by (destruct e; try discriminate PL; reflexivity). rewrite RQ, app_nil_r in *.
+    pose proof (step_keeps s e PL Ta) as (T1 & Tk1 & R1 & L1 & K1). destruct (step s e) as [s1 o]. cbn [fst snd] in *.
+    split; [exact T1|split; [lia|split; [|exact (tracked_step L (tm s) (tm s1) outs0 o Tr K1 R1)]]].
+    unfold labels in *. rewrite R1. intros x I. apply Lab. apply in_app_or in I. apply in_or_app. destruct I as [I|I]; [left; apply L1; exact I|right; exact I].
+  - destruct e; try discriminate PL; cbn [step reqs_of flat_map app] in *.
+    + (* ClientRequest *)
+      assert (NL : ~ In q (map fst L)) by (rewrite map_app in ND; cbn in ND; apply NoDup_remove_2 in ND; rewrite app_nil_r in ND; exact ND).
+      assert (F1 : ~ In q (map o_q (olist (tm s)))) by (intro I; apply NL, Lab; unfold labels; apply in_or_app; left; exact I).
+      assert (F2 : ~ In q (map rlabel (resolving (tm s)))) by (intro I; apply NL, Lab; unfold labels; apply in_or_app; right; exact I).
+      pose proof (tm_request_link s q r mt observe Ta F1 F2 Bound) as H. cbv zeta in H.
+      destruct (tm_request s q r mt observe) as [s1 o]. cbn [fst snd] in *. destruct H as (T1 & Tk1 & R1 & L1 & K1 & New).
+      split; [exact T1|split; [exact Tk1|split]].
+      * unfold labels in *. rewrite R1, map_app. cbn. intros x I. apply in_app_or in I. apply in_or_app. destruct I as [I|I].
+        -- apply L1 in I. destruct I as [<-|I]; [right; left; reflexivity|left; apply Lab; apply in_or_app; left; exact I].
+        -- left. apply Lab. apply in_or_app. right. exact I.
+      * intros q0 ob0 I. apply in_app_or in I. destruct I as [I|[I|[]]].
+        -- exact (tracked_step L (tm s) (tm s1) outs0 o Tr K1 R1 q0 ob0 I).
+        -- inversion I; subst. destruct New as [N|(x & Ix & S)]; [left; exact N|right; left; exists x; split; [apply in_or_app; right; exact Ix|exact S]].
+    + (* ClientRequestSlow: the request waits in Context.request's send() task *)
+      assert (NL : ~ In q (map fst L)) by (rewrite map_app in ND; cbn in ND; apply NoDup_remove_2 in ND; rewrite app_nil_r in ND; exact ND).
+      cbn [fst snd tm]. rewrite app_nil_r. destruct Ta as [F Q K Tk P Rn Rd].
+      split; [|split; [cbn; lia|split]].
+      * constructor; cbn; try assumption.
+        -- rewrite map_app. cbn. apply NoDup_app_intro_one; [exact Rn|]. intro I. apply NL, Lab. unfold labels. apply in_or_app. right. exact I.
+        -- intros q0 I J. rewrite map_app in J. apply in_app_or in J. destruct J as [J|[<-|[]]]; [exact (Rd q0 I J)|].
+           apply NL, Lab. unfold labels. apply in_or_app. left. exact I.
+      * unfold labels in *. cbn. rewrite !map_app. cbn. intros x I. apply in_app_or in I. apply in_or_app. destruct I as [I|I].
+        -- left. apply Lab. apply in_or_app. left. exact I.
+        -- apply in_app_or in I. destruct I as [I|[<-|[]]]; [left; apply Lab; apply in_or_app; right; exact I|right; left; reflexivity].
+      * intros q0 ob0 I. apply in_app_or in I. destruct I as [I|[I|[]]].
+        -- destruct (Tr q0 ob0 I) as [E|[S|(x & Ix & X)]]; [left; exact E|right; left; exact S|].
+           right. right. exists x. split; [cbn; apply in_or_app; left; exact Ix|exact X].
+        -- inversion I; subst. right. right. exists (q0, r, mt, ob0). split; [cbn; apply in_or_app; right; left; reflexivity|auto].
+    + (* Resolved: determine_remote returns; only now the token manager sees the request *)
+      rewrite app_nil_r in *.
+      destruct (find (fun x => fst (fst (fst x)) =? q) (resolving (tm s))) as [[[[q0 r] mt] ob]|] eqn:Fd.
+      2:{ cbn [fst snd]. rewrite app_nil_r. split; [exact Ta|split; [lia|split; [exact Lab|exact Tr]]]. }
+      apply find_some in Fd. destruct Fd as [Ix Qx]. cbn in Qx. apply Z.eqb_eq in Qx. subst q0.
+      set (res' := filter (fun x => negb (fst (fst (fst x)) =? q)) (resolving (tm s))).
+      set (s0 := {| tm := tm_set_resolving (tm s) res'; mm := mm s |}).
+      assert (NotR : ~ In q (map rlabel res')).
+      { intro I. apply in_map_iff in I. destruct I as (x & Hx & I). apply filter_In in I. destruct I as [_ I]. unfold rlabel in Hx. rewrite Hx, Z.eqb_refl in I. discriminate. }
+      assert (InR : In q (map rlabel (resolving (tm s)))) by (apply in_map_iff; exists (q, r, mt, ob); auto).
+      assert (NotO : ~ In q (map o_q (olist (tm s)))) by (intro I; exact (ti_d _ Ta q I InR)).
+      assert (T0 : TI (tm s0)).
+      { destruct Ta as [F Q K Tk P Rn Rd]. constructor; cbn; try assumption.
+        - apply NoDup_map_filter. exact Rn.
+        - intros q1 I J. apply (Rd q1 I). unfold res' in J. exact (incl_map_filter rlabel _ _ _ J). }
+      pose proof (tm_request_link s0 q r mt ob T0 NotO NotR Bound) as H. cbv zeta in H.
+      destruct (tm_request s0 q r mt ob) as [s1 o]. cbn [fst snd] in *. destruct H as (T1 & Tk1 & R1 & L1 & K1 & New).
+      split; [exact T1|split; [exact Tk1|split]].
+      * unfold labels in *. rewrite R1. cbn. intros x I. apply Lab. apply in_app_or in I. apply in_or_app. destruct I as [I|I].
+        -- apply L1 in I. destruct I as [<-|I]; [right; exact InR|left; exact I].
+        -- right. unfold res' in I. exact (incl_map_filter rlabel _ _ _ I).
+      * intros q0 ob0 I. destruct (Tr q0 ob0 I) as [(e & Ie & Eq & Eo)|[(y & Iy & S)|(x & Ixx & X1 & X2)]].
+        -- destruct (K1 e Ie) as [(e' & Ie' & Eq' & Eo')|(y & Iy & S)].
+           ++ left. exists e'. split; [exact Ie'|split; congruence].
+           ++ right. left. exists y. split; [apply in_or_app; right; exact Iy|]. rewrite <- Eq, <- Eo. exact S.
+        -- right. left. exists y. split; [apply in_or_app; left; exact Iy|exact S].
+        -- destruct (Z.eq_dec q0 q) as [->|Ne].
+           ++ assert (x = (q, r, mt, ob)).
+              { apply (NoDup_map_inj_in rlabel (resolving (tm s))); [exact (ti_r _ Ta)|exact Ixx|exact Ix|]. rewrite X1. reflexivity. }
+              subst x. cbn in X2. subst ob0.
+              destruct New as [N|(y & Iy & S)]; [left; exact N|right; left; exists y; split; [apply in_or_app; right; exact Iy|exact S]].
+           ++ right. right. exists x. split; [|auto]. rewrite R1. cbn. apply filter_In. split; [exact Ixx|].
+              unfold rlabel in X1. rewrite X1. destruct (q0 =? q) eqn:Q; [apply Z.eqb_eq in Q; congruence|reflexivity].
+Qed.
+
+Lemma NoDup_app_l {A} (l l' : list A) : NoDup (l ++ l') -> NoDup l.
+Proof. induction l as [|x l IH]; cbn; intro H; [constructor|]. inversion H; subst. constructor; [intro I; apply H2; apply in_or_app; left; exact I|auto]. Qed.
+
 Lemma run_link : forall es s L outs0,
-  TI (tm s) -> token (tm s) + Z.of_nat (length es) < 2 ^ 64 -> incl (map o_q (olist (tm s))) (map fst L) ->
+  TI (tm s) -> token (tm s) + Z.of_nat (length es) < 2 ^ 64 -> incl (labels (tm s)) (map fst L) ->
   NoDup (map fst (L ++ reqs_of es)) -> tracked L (tm s) outs0 ->
   TI (tm (fst (run s es))) /\ tracked (L ++ reqs_of es) (tm (fst (run s es))) (outs0 ++ concat (snd (run s es))).
 Proof.
   induction es as [|e es IH]; intros s L outs0 Ta Bound Lab ND Tr; cbn [run].
   - cbn. rewrite !app_nil_r. auto.
   - cbn [length] in Bound. rewrite Nat2Z.inj_succ in Bound.
-    destruct (is_request_event e) eqn:RE.
-    + destruct e; try discriminate RE. cbn [step reqs_of flat_map] in *.
-      assert (Fresh : ~ In q (map o_q (olist (tm s)))).
-      { intro I. apply Lab in I. rewrite map_app in ND. cbn in ND. apply NoDup_remove_2 in ND. apply ND. apply in_or_app. left. exact I. }
-      assert (B1 : token (tm s) + 1 < 2 ^ 64) by lia.
-      pose proof (tm_request_link s q r mt observe Ta Fresh B1) as H. cbv zeta in H.
-      destruct (tm_request s q r mt observe) as [s1 o] eqn:R. cbn [fst snd] in H. destruct H as (T1 & Tk1 & L1 & K1 & New).
-      assert (Tr1 : tracked (L ++ [(q, observe)]) (tm s1) (outs0 ++ o)).
-      { intros q0 ob0 I. apply in_app_or in I. destruct I as [I|[I|[]]].
-        - exact (tracked_step L (tm s) (tm s1) outs0 o Tr K1 q0 ob0 I).
-        - inversion I; subst. destruct New as [N|(x & Ix & S)]; [left; exact N|right; exists x; split; [apply in_or_app; right; exact Ix|exact S]]. }
-      assert (Lab1 : incl (map o_q (olist (tm s1))) (map fst (L ++ [(q, observe)]))).
-      { intros x I. apply L1 in I. rewrite map_app. cbn. apply in_or_app. destruct I as [<-|I]; [right; left; reflexivity|left; apply Lab; exact I]. }
-      assert (ND1 : NoDup (map fst ((L ++ [(q, observe)]) ++ reqs_of es))) by (rewrite <- app_assoc; exact ND).
-      assert (Bd1 : token (tm s1) + Z.of_nat (length es) < 2 ^ 64) by lia.
-      destruct (IH s1 (L ++ [(q, observe)]) (outs0 ++ o) T1 Bd1 Lab1 ND1 Tr1) as [T2 Tr2].
-      destruct (run s1 es) as [s2 os]. cbn [fst snd concat] in *. rewrite <- app_assoc in Tr2. rewrite <- app_assoc in Tr2. cbn [app] in Tr2.
-      split; [exact T2|exact Tr2].
-    + pose proof (step_keeps s e RE Ta) as (T1 & Tk1 & L1 & K1).
-      assert (RQ : reqs_of (e :: es) = reqs_of es) by (destruct e; try discriminate RE; reflexivity).
-      rewrite RQ in *. destruct (step s e) as [s1 o]. cbn [fst snd] in *.
-      assert (Bd1 : token (tm s1) + Z.of_nat (length es) < 2 ^ 64) by lia.
-      assert (Lab1 : incl (map o_q (olist (tm s1))) (map fst L)) by (eapply incl_tran; eassumption).
-      destruct (IH s1 L (outs0 ++ o) T1 Bd1 Lab1 ND (tracked_step L (tm s) (tm s1) outs0 o Tr K1)) as [T2 Tr2].
-      destruct (run s1 es) as [s2 os]. cbn [fst snd concat] in *. rewrite <- app_assoc in Tr2. auto.
+    assert (RQ : reqs_of (e :: es) = reqs_of [e] ++ reqs_of es) by (unfold reqs_of; cbn; rewrite app_nil_r; reflexivity).
+    rewrite RQ, app_assoc in *.
+    assert (ND0 : NoDup (map fst (L ++ reqs_of [e]))) by (rewrite map_app in ND; apply NoDup_app_l in ND; exact ND).
+    assert (B1 : token (tm s) + 1 < 2 ^ 64) by lia.
+    pose proof (step_link s e L outs0 Ta B1 Lab ND0 Tr) as (T1 & Tk1 & L1 & Tr1).
+    destruct (step s e) as [s1 o]. cbn [fst snd] in *.
+    assert (Bd1 : token (tm s1) + Z.of_nat (length es) < 2 ^ 64) by lia.
+    destruct (IH s1 (L ++ reqs_of [e]) (outs0 ++ o) T1 Bd1 L1 ND Tr1) as [T2 Tr2].
+    destruct (run s1 es) as [s2 os]. cbn [fst snd concat] in *. split; [exact T2|]. rewrite (app_assoc outs0 o (concat os)). exact Tr2.
 Qed.
 
 Lemma TI_init u m t : 0 <= t -> TI (tm (init u m t)).
 Proof. intro P. constructor; cbn; try constructor; try tauto; try exact P. Qed.
 
-(* in every reachable state of a context, a submitted request that is not settled has its entry in outgoing_requests *)
+(* in every reachable state of a context, a submitted request is settled, or has its entry in outgoing_requests, or is
+   still inside Context.request's remote lookup *)
 Theorem unsettled_requests_are_outstanding : forall es u m t,
   NoDup (map fst (reqs_of es)) -> 0 <= t -> t + Z.of_nat (length es) < 2 ^ 64 ->
   TI (tm (fst (run (init u m t) es))) /\ tracked (reqs_of es) (tm (fst (run (init u m t) es))) (concat (snd (run (init u m t) es))).
 Proof.
   intros es u m t ND P B.
   assert (Tr0 : tracked [] (tm (init u m t)) []) by (intros q ob []).
-  assert (Lab0 : incl (map o_q (olist (tm (init u m t)))) (map fst (@nil (Z * bool)))) by (intros x []).
+  assert (Lab0 : incl (labels (tm (init u m t))) (map fst (@nil (Z * bool)))) by (intros x []).
   exact (run_link es (init u m t) [] [] (TI_init u m t P) B Lab0 ND Tr0).
 Qed.
 
@@ -456,8 +538,11 @@ Theorem shutdown_at_any_moment : forall u m t before after, wf_history t before 
   (* what the Shutdown step does: every handler cancelled, every table entry failed with a library error, returns *)
   out = map (fun i => OHCancel (i_h i)) (ilist (tm s)) ++ flat_map shutdown_outcome (olist (tm s)) ++ [OShutdownDone] /\
   forallb lib_outcome out = true /\
-  (* every request ever submitted is settled once shutdown has returned *)
-  (forall q r mt ob, In (ClientRequest q r mt ob) before -> exists o, In o (outs ++ out) /\ settles ob q o = true) /\
+  (* every request ever submitted is settled once shutdown has returned — except those still inside Context.request's
+     remote lookup, which no table knows (finding C18:resolving-request-left-hanging) *)
+  (forall q ob, In (q, ob) (reqs_of before) ->
+     (exists o, In o (outs ++ out) /\ settles ob q o = true) \/
+     (exists x, In x (resolving (tm s')) /\ rlabel x = q /\ snd x = ob)) /\
   (* afterwards: silence, and the timers run out *)
   forallb (forallb quiet) (snd (run s' after)) = true /\
   pending (mm (fst (run (fst (run s' after)) (repeat Fire (length (forgets (mm (fst (run s' after))))))))) = [].
@@ -468,15 +553,36 @@ Proof.
   split; [exact O|]. split; [|split; [|split; [exact Q|exact R]]].
   - unfold out. rewrite O. rewrite !forallb_app. rewrite forallb_flat_map by apply shutdown_outcome_lib.
     cbn [forallb lib_outcome andb]. rewrite andb_true_r. apply forallb_forall. intros x Ix. apply in_map_iff in Ix. destruct Ix as (i & <- & _). reflexivity.
-  - intros q r mt ob I.
+  - intros q ob Iq.
     destruct (unsettled_requests_are_outstanding before u m t ND P B) as [Ti Tr]. fold s in Ti, Tr. fold outs in Tr.
-    assert (Iq : In (q, ob) (reqs_of before)) by (unfold reqs_of; apply in_flat_map; exists (ClientRequest q r mt ob); split; [exact I|left; reflexivity]).
-    pose proof (shutdown_keeps s Ti) as (_ & _ & _ & K).
-    pose proof (tracked_step _ _ _ _ _ Tr K q ob Iq) as [(e & Ie & _)|S]; [|exact S].
+    pose proof (shutdown_keeps s Ti) as (_ & _ & R1 & _ & K).
+    pose proof (tracked_step _ _ _ _ _ Tr K R1 q ob Iq) as [(e & Ie & _)|[S|X]]; [|left; exact S|right; exact X].
     exfalso. pose proof (shutdown_step s xs E Own) as (D & _). destruct D as (_ & D2 & _).
     change (fst (step s Shutdown)) with (fst (shutdown s)) in *. unfold olist in Ie. cbn [step] in Ie. rewrite D2 in Ie. exact Ie.
 Qed.
 
+(* what the code does guarantee for a request that was still looking for its remote: when the lookup returns after
+   shutdown, the request fails at once with LibraryShutdown (tokenmanager.py:220-223) *)
+Lemma resolved_after_shutdown s q r mt ob : outgoing (tm s) = None ->
+  find (fun x => fst (fst (fst x)) =? q) (resolving (tm s)) = Some (q, r, mt, ob) ->
+  snd (step s (Resolved q)) = OFail q LibraryShutdown :: (if ob then [OObsEnd q NotObservable] else []) /\
+  ~ In q (map rlabel (resolving (tm (fst (step s (Resolved q)))))).
+Proof.
+  intros D F. cbn [step]. rewrite F. rewrite request_after_shutdown by exact D. cbn [fst snd tm]. split; [reflexivity|].
+  intro I. apply in_map_iff in I. destruct I as (x & Hx & I). cbn in I. apply filter_In in I. destruct I as [_ I].
+  unfold rlabel in Hx. rewrite Hx, Z.eqb_refl in I. discriminate.
+Qed.
+
+(* the unconditional reading of the property ("every outstanding request terminates within the shutdown time-out") is
+   false of the model, as it is of the code: a request submitted while its remote is being looked up survives shutdown
+   with no outcome, however much time passes, until the lookup returns *)
+Lemma resolving_request_not_failed_refuted :
+  let r := run (init 2000000 0 0) [ClientRequestSlow 1 1 CON false; Shutdown; Advance 300000000] in
+  In OShutdownDone (concat (snd r)) /\ (forall o, In o (concat (snd r)) -> settles false 1 o = false) /\
+  resolving (tm (fst r)) = [(1, 1, CON, false)] /\
+  snd (step (fst r) (Resolved 1)) = [OFail 1 LibraryShutdown].
+Proof. vm_compute. split; [auto|]. split; [|auto]. intros o [<-|[]]. reflexivity. Qed.
+
 (* a busy reachable state: the hypothesis-free theorem talks about something *)
-Lemma busy_history_wf : wf_history 0 busy_history [Fire; Advance 300000000; ClientRequest 9 1 CON true; HandlerRespond 0 69 true None; TransportError 1].
+Lemma busy_history_wf : wf_history 0 busy_history [Fire; Advance 300000000; ClientRequest 9 1 CON true; HandlerRespond 0 69 true None true; Resolved 9; ClientRequestSlow 10 2 NON false; TransportError 1].
 Proof. unfold wf_history. repeat split; try reflexivity; try (vm_compute; congruence); try lia. cbn. repeat constructor; cbn; intuition congruence. Qed.
